@@ -15,7 +15,7 @@ if [ "$what" = ocaml ] || [ "$what" = all ]; then
   ( cd build/ocaml && cp "$V/ocaml/driver.ml" . &&
     if [ ! -f model.ml ] || [ "$V/coq/theories/extract/Extract.v" -nt model.ml ] || [ -n "$(find "$V/coq/theories/model" "$V/coq/theories/spec" -name '*.vo' -newer model.ml 2>/dev/null | head -1)" ] || [ ! -x model ] || [ driver.ml -nt model ]; then
       rm -f model && timeout 600 coqc -Q "$V/coq/theories" GM "$V/coq/theories/extract/Extract.v" -o ./Extract.vo >/dev/null &&
-      ocamlfind ocamlopt -O3 -w -a model.mli model.ml driver.ml -o model > ../ocaml.log 2>&1 || { cat ../ocaml.log; echo "ocaml build failed"; exit 3; }
+      ocamlfind ocamlopt -package unix -linkpkg -O3 -w -a model.mli model.ml driver.ml -o model > ../ocaml.log 2>&1 || { cat ../ocaml.log; echo "ocaml build failed"; exit 3; }
     fi ) || exit 3
 fi
 if [ "$what" = go ] || [ "$what" = all ]; then
